@@ -4,7 +4,7 @@ import os
 WORKERS = min(int(os.environ.get("VERIF_WORKERS", "8")), 8)
 
 GEN = """SPECIFICATION Spec
-CONSTANTS N = {n}
+CONSTANTS Ns = {n}
           MaxE = {e}
           Weights = {w}
           NTypes = {t}
@@ -30,24 +30,20 @@ def gen(n, e, w=W3, t=1, inv="", emit=EMIT, nored="FALSE", canon="TRUE"):
 
 
 def graphs(ctx, families, tag):
-    """families: list of (n, maxe, weights, ntypes); returns scripts (each = AddNode* AddEdge*)"""
+    """families: list of (node counts "{..}", maxe, weights, ntypes); returns scripts (each = AddNode* AddEdge*)"""
     out = []
-    for (n, e, w, t) in families:
-        out += ctx.tlc_gen("MC_Algo", gen(n, e, w, t), "%s-n%de%dt%d" % (tag, n, e, t), workers=min(WORKERS, 4), timeout=3000)
+    for k, fam in enumerate(families):
+        (n, e, w, t) = fam[:4]
+        emit = "ACTION_CONSTRAINT " + (fam[4] if len(fam) > 4 else "Emit")
+        out += ctx.tlc_gen("MC_Algo", gen(n, e, w, t, emit=emit), "%s-%d" % (tag, k), workers=min(WORKERS, 4), timeout=3000)
     return out
 
 
 def corrupt(ev, rng):
     """binding self-test: change one logged result so that it can no longer satisfy its definition"""
     k = ev.get("ev")
-    if k == "AddNode":
-        ev["obs"]["handle"] += 1
-        ev["_corrupted"] = "obs/handle"
-        return True
-    if k == "AddEdge":
-        ev["obs"]["edges"] += 1
-        ev["_corrupted"] = "obs/edges"
-        return True
+    if k in ("AddNode", "AddEdge"):
+        return False          # corrupt a logged RESULT, not the graph construction
     runs = ev.get("runs")
     if k in ("RandGraph",):
         return False
